@@ -345,6 +345,54 @@ func C15(c *core.Ctx) {
 	}
 
 	// ---- R15.3 segment index and allocation bounds
+	// ---- R15.6 the FinalBlockId the producer announces is not "size / segment size": that
+	// quotient is the index of the last segment only when the size is NOT a multiple of the
+	// segment size; for an exact multiple it names a segment that is never stored and the
+	// consumer waits for it forever. (Only this known-wrong form is reported; that another
+	// expression equals ceil(size/seg)-1 is arithmetic and not decided.)
+	if pr := c.Fn("R15.6", "std/object", "Client", "Produce"); pr != nil {
+		nFB := 0
+		core.InstrsDeep(pr, func(in ssa.Instruction) {
+			fa, v, ok := storeToField(in, "DataConfig", "FinalBlockID")
+			_ = fa
+			if !ok {
+				return
+			}
+			// &finalBlockId where finalBlockId = NewSegmentComponent(x)
+			var seg ssa.Value
+			if al, isAl := core.Strip(v).(*ssa.Alloc); isAl {
+				nSt := 0
+				for _, r := range core.Refs(al) {
+					st, isSt := r.(*ssa.Store)
+					if !isSt || st.Addr != ssa.Value(al) {
+						continue
+					}
+					nSt++
+					if cl, isCall := core.Strip(st.Val).(*ssa.Call); isCall {
+						if id, okID := core.Callee(&cl.Call); okID && id.Name == "NewSegmentComponent" && len(cl.Call.Args) == 1 {
+							seg = cl.Call.Args[0]
+						}
+					}
+				}
+				if nSt != 1 {
+					seg = nil
+				}
+			}
+			if seg == nil {
+				return
+			}
+			nFB++
+			bad := false
+			if q, isQ := core.StripConv(seg).(*ssa.BinOp); isQ && q.Op == token.QUO {
+				if _, adj := core.StripConv(q.X).(*ssa.BinOp); !adj {
+					bad = true // bare size / segment size
+				}
+			}
+			c.Decide(!bad, "R15.6", "final-block-id-not-bare-quotient", c.Pos(in), "the announced last segment is not computed as size / segmentSize", "Produce announces FinalBlockId = size / segmentSize: for an object whose size is an exact multiple of the segment size this is one more than the last segment stored, and a consumer never completes")
+		})
+		c.Floor("R15.6", "FinalBlockID stores in Produce", nFB, 1)
+	}
+
 	if hd := c.Fn("R15.3", "std/object", "rrSegFetcher", "handleData"); hd != nil {
 		state := ssa.Value(hd.Params[2])
 		isCnt := func(v ssa.Value) bool { return isFieldLoad(core.StripConv(v), state, "segCnt") }
